@@ -45,7 +45,7 @@ pub fn run(row: &Value) -> Vec<String> {
         for sch in ["http", "https"] {
             for upper_host in [false, true] {
                 let u: url::Url = format!("{}://{}/x", sch, host_of(labels, upper_host)).parse().unwrap();
-                obs.push(json!({"sch":sch,"labels":labels,"got":name_of(ps.for_url(&u))}));
+                obs.push(json!({"sch":sch,"labels":labels,"got":name_of(ps.for_url(&u)),"sent":false}));
             }
         }
         vec![json!({"ev":"proxy","id":id,"kind":kind,"row":row,"obs":obs}).to_string()]
@@ -77,7 +77,7 @@ pub fn run(row: &Value) -> Vec<String> {
             ("A.TEST", vec!["a", "test"])] {
             for sch in ["http", "https"] {
                 let u: url::Url = format!("{}://{}/x", sch, host).parse().unwrap();
-                obs.push(json!({"sch":sch,"labels":labels,"got":name_of(ps.for_url(&u))}));
+                obs.push(json!({"sch":sch,"labels":labels,"got":name_of(ps.for_url(&u)),"sent":false}));
             }
         }
         // the same environment seen through the defaults every new request / session starts from: a request is
@@ -100,7 +100,7 @@ pub fn run(row: &Value) -> Vec<String> {
                     Some(h) if h == host => "-".to_string(),
                     Some(h) => h.trim_start_matches("p-").trim_end_matches(".test").replace('-', "_"),
                 };
-                obs.push(json!({"sch":sch,"labels":labels,"got":got}));
+                obs.push(json!({"sch":sch,"labels":labels,"got":got,"sent":true}));
             }
         }
         for (_, var) in vars.iter().chain([("", "no_proxy"), ("", "NO_PROXY")].iter()) {
